@@ -505,9 +505,12 @@ def x7_shims(text, log):
     text = re.sub(r"\bself\.tables\.contains_key\((table_name)\)", tcont, text)
 
     def tgetu(m):
+        # every use of `self.tables.get(table_name)` (whatever follows: `.unwrap()`, `.cloned()`, a
+        # `match`): vstd's own BTreeMap::get says nothing for String keys, and a proof that fails
+        # for that reason must not look like a violation
         log.add("X7:vx_tables_get_str")
-        return "vx_tables_get_str(&self.tables, %s).unwrap()" % m.group(1)
-    text = re.sub(r"\bself\.tables\.get\((table_name)\)\.unwrap\(\)", tgetu, text)
+        return "vx_tables_get_str(&self.tables, %s)" % m.group(1)
+    text = re.sub(r"\bself\.tables\.get\((table_name)\)", tgetu, text)
 
     def tget(m):
         log.add("X7:vx_tables_get")
